@@ -292,7 +292,7 @@ func ruleCONC2(w *World) []Ob {
 			pos := p.InstrPos(mc)
 			var mine []closeSite
 			for _, c := range closes {
-				if resolveArg(p, c.ch) == ssa.Value(mc) {
+				if resolveArg(p, c.ch) == ssa.Value(mc) || containsValue(resolveArgAll(p, c.ch, 0), mc) {
 					mine = append(mine, c)
 					matched[c.instr] = true
 				}
@@ -317,6 +317,9 @@ func ruleCONC2(w *World) []Ob {
 				return
 			}
 			ownerGo := goStartOf(p, g)
+			if ownerGo == nil {
+				ownerGo = goStartFor(p, g, fn, mc) // a named goroutine function shared by several makers
+			}
 			if ownerGo == nil || ownerGo.Parent() != fn {
 				l.bad(fid, construct, pos, "the closing function "+p.FuncID(g)+" is not a goroutine started (once) by the function that makes the channel", "chan")
 				return
@@ -332,7 +335,7 @@ func ruleCONC2(w *World) []Ob {
 					}
 					passes := false
 					for _, a := range gi.Common().Args {
-						if resolveArg(p, a) == ssa.Value(mc) {
+						if resolveArg(p, a) == ssa.Value(mc) || resolve(a) == ssa.Value(mc) {
 							passes = true
 						}
 					}
@@ -351,15 +354,23 @@ func ruleCONC2(w *World) []Ob {
 			}
 			// other closures (besides g and its deferred closure) capturing the channel and sending/closing
 			for _, s := range allSendSites(p) {
-				if resolveArg(p, s.ch) != ssa.Value(mc) {
-					continue
+				var ctxs []*ssa.Function
+				if resolveArg(p, s.ch) == ssa.Value(mc) {
+					ctxs = []*ssa.Function{s.fn}
+				} else {
+					ctxs = senderContexts(p, s.ch, mc, 0)
 				}
-				if s.fn != g && !isAncestor(g, s.fn) {
-					// a worker started from the owner (its WaitGroup discipline is checked above) may send
-					if wg := goStartOf(p, outermost(s.fn)); wg != nil && (wg.Parent() == g || isAncestor(g, wg.Parent())) {
-						continue
+				for _, sf := range ctxs {
+					if sf != g && !isAncestor(g, sf) {
+						// a worker started from the owner (its WaitGroup discipline is checked above) may send
+						if wg := goStartOf(p, outermost(sf)); wg != nil && (wg.Parent() == g || isAncestor(g, wg.Parent())) {
+							continue
+						}
+						if wg := goStartFor(p, outermost(sf), fn, mc); wg != nil && wg == ownerGo {
+							continue
+						}
+						problems = append(problems, "send on the channel from "+p.FuncID(sf)+", outside the owner goroutine")
 					}
-					problems = append(problems, "send on the channel from "+p.FuncID(s.fn)+", outside the owner goroutine")
 				}
 			}
 			if len(problems) > 0 {
@@ -731,6 +742,20 @@ func ruleCONC3(w *World) []Ob {
 						return
 					}
 					mk, ok := resolve(c.Common().Args[1]).(*ssa.MakeClosure)
+					// a collector built by a helper: eg.Go(await(ectx, ch)) where await returns the closure
+					var maker *ssa.Call
+					if !ok {
+						if cc, isCall := resolve(c.Common().Args[1]).(*ssa.Call); isCall && cc.Common().StaticCallee() != nil && p.InModule(cc.Common().StaticCallee()) {
+							g := cc.Common().StaticCallee()
+							allInstrs(g, func(in2 ssa.Instruction) {
+								if r, isR := in2.(*ssa.Return); isR && len(rr(r)) == 1 {
+									if m2, isMk := stripConv(rr(r)[0]).(*ssa.MakeClosure); isMk {
+										mk, ok, maker = m2, true, cc
+									}
+								}
+							})
+						}
+					}
 					if !ok {
 						l.undecided(fid, construct, p.InstrPos(c), "collector is not a closure literal", "collector")
 						return
@@ -748,6 +773,13 @@ func ruleCONC3(w *World) []Ob {
 						for _, st := range sel.States {
 							if x, isDone := isDoneChan(st.Chan); isDone {
 								o := ctxOriginOf(x, 0)
+								if maker != nil && o.kind == "param" {
+									if prm, isP := o.root.(*ssa.Parameter); isP {
+										if i := paramIndex(maker.Common().StaticCallee(), prm); i >= 0 && i < len(maker.Common().Args) {
+											o = ctxOriginOf(maker.Common().Args[i], 0)
+										}
+									}
+								}
 								if o.kind == "derived" && o.root == ssa.Value(wc) {
 									okArm = true
 								}
@@ -1601,4 +1633,39 @@ func locksAroundWrites(p *Prog, h *ssa.Function, writes map[*ssa.Function]bool) 
 		}
 	})
 	return ok && n > 0
+}
+
+// senderContexts: ch is a parameter of a helper with several call sites (sendErr): the functions from which the
+// helper is called with the channel mc.
+func senderContexts(p *Prog, ch ssa.Value, mc ssa.Value, depth int) []*ssa.Function {
+	prm, ok := resolve(ch).(*ssa.Parameter)
+	if !ok || depth > 3 {
+		return nil
+	}
+	fn := prm.Parent()
+	if fn.Parent() != nil {
+		return nil
+	}
+	idx := inputIndexParam(fn, prm)
+	var out []*ssa.Function
+	for _, site := range p.Callers(fn) {
+		args := site.Common().Args
+		if site.Common().IsInvoke() {
+			args = append([]ssa.Value{site.Common().Value}, args...)
+		}
+		if idx < 0 || idx >= len(args) {
+			continue
+		}
+		a := args[idx]
+		if resolveArg(p, a) == mc || resolve(a) == mc {
+			if _, isGo := site.(*ssa.Go); isGo {
+				out = append(out, fn) // started as a goroutine: the helper itself is the sending context
+			} else {
+				out = append(out, site.Parent())
+			}
+			continue
+		}
+		out = append(out, senderContexts(p, a, mc, depth+1)...)
+	}
+	return out
 }
